@@ -147,7 +147,7 @@ def dependency_roots(func, exprs, stop_names=(), visited=None, at=None, through_
 
 
 
-def single_def_env(func):
+def single_def_env(func, exclude=()):
     """name -> defining expression for locals assigned exactly once at statement level (substituted transitively)."""
     counts, defs = {}, {}
     for st in walk_no_nested(func):
@@ -162,7 +162,7 @@ def single_def_env(func):
                     counts[n_.id] = counts.get(n_.id, 0) + 2
     env = {}
     for k, v in defs.items():
-        if counts[k] == 1:
+        if counts[k] == 1 and k not in exclude:
             env[k] = v
     # transitive closure (bounded)
     for _ in range(4):
